@@ -329,6 +329,14 @@ def _drive_model(mon, case, dicts, label=""):
                 # the history cut right after the index (what a decoder passes)
                 out = mon.lib("call_idx_truncated", m, hist[:t], dict(), t)
                 _same(mon, out[0], full[t], "idx-truncated-equals-full", idx=t, model=tag)
+        # a history of calls that keep passing the SAME index tensor object (-1 = "the next token") while the
+        # history grows - what a decoding loop does
+        if not light and T >= 1:
+            last = torch.tensor(-1)
+            for t in sorted({0, T // 2, T}):
+                out = mon.lib("call_idx_same_tensor_object", m, hist[:t], idx=last)
+                _same(mon, out[0], full[t], "idx-reused-tensor-equals-full", idx=-1, history_length=t, model=tag)
+            mon.stat("idx_tensor_left_untouched" if int(last) == -1 else "idx_tensor_modified_by_the_call")
         # a different index per batch element
         ar = torch.arange(B)
         for j, vec in enumerate(case["idx"]):
@@ -336,8 +344,17 @@ def _drive_model(mon, case, dicts, label=""):
                 continue
             iv = torch.tensor(vec, dtype=torch.long)
             out = mon.lib("call_idx_tensor", m, hist, idx=iv)
-            want = full[(iv + T + 1) % (T + 1), ar]
+            want = full[(torch.tensor(vec, dtype=torch.long) + T + 1) % (T + 1), ar]
             _same(mon, out[0], want, "idx-tensor-equals-full", idx=vec, model=tag)
+            if not light and T >= 2:
+                # ... and the same per-element tensor again on a shorter history (negative entries count from its end)
+                T2 = T - 1
+                ok = all(-T2 - 1 <= x <= T2 for x in vec)
+                if ok:
+                    out = mon.lib("call_idx_tensor", m, hist[:T2], idx=iv)
+                    want = full[(torch.tensor(vec, dtype=torch.long) + T2 + 1) % (T2 + 1), ar]
+                    _same(mon, out[0], want, "idx-tensor-equals-full", idx=vec, history_length=T2, model=tag,
+                          note="same tensor object passed a second time")
 
     routes(lm, "original")
 
